@@ -43,31 +43,32 @@ type Obligation struct {
 }
 
 type Exec struct {
-	prog      *ssa.Program
-	pkgs      map[string]*packages.Package
-	sym       *Symbols
-	db        *ContractDB
-	closures  map[string]FuncV
-	root      *ssa.Function
-	rootC     *FuncContract
-	obls      map[string]*Obligation
-	oblOrder  []string
-	nPaths    int
-	nExits    int
-	trusted   map[string]bool // names of assumed contracts / intrinsics / opaque calls used
-	curCom    *ssa.CallCommon // the call being dispatched (for out-parameter havoc of opaque calls)
-	typeIDs   map[string]int
-	typeByID  map[int]types.Type
-	globalIDs map[*ssa.Global]int
-	loopInfo  map[*ssa.Function]*loopInfo
-	maxPaths  int
-	maxDepth  int
-	callOrd   map[string]int
-	errs      []string
-	sentinels map[string]int
-	coverHits map[string]bool
-	ld        *Loaded
-	lemmaName string
+	prog        *ssa.Program
+	pkgs        map[string]*packages.Package
+	sym         *Symbols
+	db          *ContractDB
+	closures    map[string]FuncV
+	root        *ssa.Function
+	rootC       *FuncContract
+	obls        map[string]*Obligation
+	oblOrder    []string
+	nPaths      int
+	nExits      int
+	trusted     map[string]bool // names of assumed contracts / intrinsics / opaque calls used
+	curCom      *ssa.CallCommon // the call being dispatched (for out-parameter havoc of opaque calls)
+	nSummary    int             // loop summary events created
+	typeIDs     map[string]int
+	typeByID    map[int]types.Type
+	globalIDs   map[*ssa.Global]int
+	loopInfo    map[*ssa.Function]*loopInfo
+	maxPaths    int
+	maxDepth    int
+	callOrd     map[string]int
+	errs        []string
+	sentinels   map[string]int
+	coverHits   map[string]bool
+	ld          *Loaded
+	lemmaName   string
 	entailCache map[string]bool
 	curObs      []Observe
 	curSmall    []Term
@@ -177,7 +178,7 @@ func (x *Exec) assert(st *State, name, kind, text, src string, goal Term, counts
 // ---------- loops ----------
 
 type loopInfo struct {
-	headers map[*ssa.BasicBlock]int           // header -> ordinal (1-based, by block index)
+	headers map[*ssa.BasicBlock]int               // header -> ordinal (1-based, by block index)
 	body    map[*ssa.BasicBlock][]*ssa.BasicBlock // header -> blocks of the natural loop
 }
 
@@ -900,6 +901,11 @@ func (x *Exec) loopHeader(st *State, fr *Frame, h *ssa.BasicBlock, ord int, phis
 	} else {
 		x.havocLoopWrites(st, fr, li.body[h])
 	}
+	// the events of the iterations already run: an unknown number of each kind the body can emit
+	toks, wild, dyn := x.loopEventTokens(fr.fn, li.body[h], fr.fn != x.root)
+	x.nSummary++
+	st.events = append(st.events, &Event{Kind: "loop-summary", Name: fmt.Sprintf("loop-summary#%d", x.nSummary), Index: len(st.events), Tokens: toks, Wild: wild, Dyn: dyn, ID: x.nSummary, Root: fr.fn == x.root})
+	fr.loopEv[h] = len(st.events)
 	if spec != nil {
 		sc2 := x.specCtxFor(st, fr, fr.pre)
 		sc2.preferEnv = true
@@ -917,6 +923,117 @@ func (x *Exec) loopHeader(st *State, fr *Frame, h *ssa.BasicBlock, ord int, phis
 	}
 	ns[h] = snap
 	fr.loopSnap = ns
+}
+
+// loopEventTokens: names of the events the loop body can emit (its own operations and those of the callees that
+// are executed inline), syntactically. wild: something was called whose events cannot be named; dyn: a call
+// through a function value.
+func (x *Exec) loopEventTokens(fn *ssa.Function, body []*ssa.BasicBlock, inlined bool) (map[string]bool, bool, bool) {
+	toks := map[string]bool{}
+	wild, dyn := false, false
+	seen := map[*ssa.Function]bool{fn: true}
+	var scanBlocks func(bs []*ssa.BasicBlock, depth int, inl bool)
+	scanBlocks = func(bs []*ssa.BasicBlock, depth int, inl bool) {
+		for _, b := range bs {
+			for _, instr := range b.Instrs {
+				switch in := instr.(type) {
+				case *ssa.Send:
+					toks["send"] = true
+				case *ssa.UnOp:
+					if in.Op == token.ARROW {
+						toks["recv"] = true
+					}
+				case *ssa.Select:
+					toks["poll"], toks["send"], toks["recv"] = true, true, true
+				case *ssa.Panic:
+					toks["panic"] = true
+				case ssa.CallInstruction:
+					com := in.Common()
+					_, isGo := instr.(*ssa.Go)
+					if isGo {
+						toks["go"] = true
+					}
+					if bi, ok := com.Value.(*ssa.Builtin); ok {
+						toks[bi.Name()] = true
+						continue
+					}
+					if com.IsInvoke() {
+						toks[com.Method.Name()] = true
+						if isGo {
+							toks["go "+com.Method.Name()] = true
+						}
+						if _, ok := com.Value.(*ssa.MakeInterface); ok {
+							wild = true // dispatched statically to a method body whose events are not named here
+						}
+						continue
+					}
+					var callee *ssa.Function
+					switch cv := com.Value.(type) {
+					case *ssa.Function:
+						callee = cv
+					case *ssa.MakeClosure:
+						callee = cv.Fn.(*ssa.Function)
+					}
+					if callee == nil {
+						toks[funcValueName(com.Value)] = true
+						toks[com.Value.Name()] = true
+						if inl {
+							wild = true // the function value may be a known closure of the caller, run inline
+						} else {
+							dyn = true
+						}
+						continue
+					}
+					rn := relName(callee)
+					toks[callee.Name()], toks[rn], toks[callee.String()] = true, true, true
+					if isGo {
+						toks["go "+rn] = true
+						continue // the goroutine's own events are not part of this thread's trace
+					}
+					if name := intrinsicName(callee); name != "" {
+						toks[name] = true
+						m := name[strings.LastIndex(name, ".")+1:]
+						switch {
+						case strings.Contains(name, "Mutex)."):
+							toks["lock"], toks["unlock"] = true, true
+						case strings.Contains(name, "WaitGroup)."):
+							toks["wg"], toks["wg."+m] = true, true
+						case strings.HasPrefix(name, "timex."), strings.Contains(name, "timex."):
+							toks["timex.Now"], toks["Now"] = true, true
+						}
+						toks[m] = true
+						continue
+					}
+					if x.rootC != nil && (x.rootC.Opaque[rn] || x.rootC.Opaque[callee.Name()]) {
+						continue
+					}
+					if x.rootC != nil && x.rootC.Folds != nil {
+						if _, ok := x.rootC.Folds[callee.Name()]; ok {
+							wild = true
+							continue
+						}
+					}
+					if c := x.contractOf(callee); c != nil && !c.InlineAlways {
+						continue
+					}
+					if callee.Blocks == nil || !(x.isModuleFunc(callee) || inlineStd[callee.String()]) {
+						continue
+					}
+					if seen[callee] {
+						continue
+					}
+					if depth >= 8 {
+						wild = true
+						continue
+					}
+					seen[callee] = true
+					scanBlocks(callee.Blocks, depth+1, true)
+				}
+			}
+		}
+	}
+	scanBlocks(body, 0, inlined)
+	return toks, wild, dyn
 }
 
 // havocLoopWrites havocs every heap location that the loop body may assign (syntactic over-approximation).
@@ -2303,10 +2420,11 @@ func debugName(v ssa.Value) string {
 }
 
 // modTerm picks the simplest encoding of Go's a % b that the path condition justifies:
-//   0 <= a < b      -> a
-//   0 <= a < 2b     -> wrapmod(a, b)   (an if-then-else; keeps quantified ring obligations linear)
-//   a >= 0, b > 0   -> (mod a b)
-//   otherwise       -> gomod (truncated remainder spelled out)
+//
+//	0 <= a < b      -> a
+//	0 <= a < 2b     -> wrapmod(a, b)   (an if-then-else; keeps quantified ring obligations linear)
+//	a >= 0, b > 0   -> (mod a b)
+//	otherwise       -> gomod (truncated remainder spelled out)
 func (x *Exec) modTerm(st *State, at, bt Term) Term {
 	nonneg := and(mk(SBool, ">=", at, intLit(0)), mk(SBool, ">", bt, intLit(0)))
 	if !x.entails(st, nonneg) {
